@@ -16,11 +16,32 @@ SCRATCH = "/var/tmp/vx-replay-src"
 
 BOUNDED = ("C01", "C02", "C03", "C04", "C06", "C07", "C08", "C09", "C10", "C12", "C13", "C15", "C16", "C17", "C18", "C19", "C20")
 
-BOUND_TEXT = ("seeded random registration sequences built through the public DispatcherBuilder API of a scratch copy of /repo's working tree "
-              "(three read-only shape probes appended): <= 60 top-level registrations, <= 12 resource ids over 4 types, dependency lists <= 4 names, "
-              "running-time hints 1..5, barriers, thread-local systems (also zero-sized), batches nested <= 2 deep with 0..2 inner dispatches "
-              "(hand-written and MultiDispatcher controllers), nested dispatchers as thread-local systems, pools of 2/3/8 threads; "
-              "ordering/overlap findings are confirmed by a real dispatch_par in which the two systems wait for each other")
+_SEQ = ("seeded random registration sequences built through the public DispatcherBuilder API of a scratch copy of /repo's working tree "
+        "(three read-only shape probes appended): <= 60 top-level registrations, <= 12 resource ids over 4 types, dependency lists <= 4 names, "
+        "running-time hints 1..5, barriers, thread-local systems (also zero-sized), batches nested <= 2 deep with 0..2 inner dispatches "
+        "(hand-written and MultiDispatcher controllers), nested dispatchers as thread-local systems, pools of 1/2/3/8 threads; "
+        "ordering/overlap findings are confirmed by a real dispatch_par in which the two systems wait for each other")
+_WORLD = ("seeded random histories on a real World: <= 12 operations (insert / remove / entry / get_mut / has_value, typed and by id, with mismatching "
+          "type arguments) over 3 resource types x dynamic ids {0,1,7} with drop counters; borrow phases of <= 7 steps with live guards, clones, writes "
+          "through exclusive guards, Option system data")
+_META = ("seeded random histories on a real MetaTable<dyn Probe>: <= 15 operations (register with repeats / insert / remove) over 6 types of different size, "
+         "get / get_mut / iter / iter_mut checked after every step, also under live shared / exclusive guards and held items, address-changing CastFrom impls")
+BOUNDS = {
+    "C06": "a generated family of 99 system-data types (tuple arities 1..26 with every member kind at every position, nestings to depth 3, repeated resources, "
+           "user SetupHandler members, derived named / tuple / generic / nested structs) x seeded presence masks over 26 resource types",
+    "C08": _WORLD + "; every third case: " + _META,
+    "C09": _WORLD,
+    "C15": "seeded call sequences (<= 8 of dispatch / running / wait / wait_without_tl / world / world_mut) on a real AsyncDispatcher over plans of <= 5 registrations; "
+           "systems stay inside run until a gate opens (<= 40 ms)",
+    "C16": "seeded random Par/Seq trees (depth <= 5, fan-out <= 4, 6 resource ids, zero-sized leaves) built through the real Par::new/with and Seq::new/with, "
+           "dispatched three times by a real ParSeq (once from inside the pool)",
+    "C17": _META,
+}
+BOUND_TEXT = _SEQ
+
+
+def bound_text(pid):
+    return BOUNDS.get(pid, _SEQ)
 
 
 def _bin_for_tree():
